@@ -25,5 +25,8 @@ def main(prop, path):
             return 1
         print('replay: the recorded case no longer fails')
         return 0
+    if prop in ('C09', 'C10', 'C11', 'C17'):
+        import keys_check
+        return keys_check.replay(prop, p, path)
     mod = __import__('check_' + prop.lower())
     return mod.replay(p, path)
